@@ -9,3 +9,9 @@ ASSUMPTIONS = ["inputs generated inside the documented magnitude domain (FFT64: 
                "the f64 FFT butterflies and the NTT butterfly network are not proved: their exactness enters through the bit-exact correspondence"]
 def classify(record):
     return None
+
+def translate(ctx):
+    """regenerate coq/Gen/C07Consts_gen.v (primes, omega, CRT constants, Q_SHIFTED shift, accumulator budgets) from /repo"""
+    import importlib, gen_c07
+    importlib.reload(gen_c07)
+    return {"C07Consts_gen": gen_c07.main()}
